@@ -37,15 +37,45 @@ func runR52(c *Ctx) {
 			continue
 		}
 		found := false
+		// the loop over the sub-clauses: in the method itself, or in a helper of the package that is handed the list
+		type loopSite struct {
+			fn *ssa.Function
+			li loopInfo
+		}
+		var sites []loopSite
 		for _, li := range loopsOf(fn) {
 			if li.base == nil {
 				continue
 			}
-			if fld, _ := fieldOf(li.base); fld == nil || fld.Name() != "subClauses" {
-				continue
+			if fld, _ := fieldOf(li.base); fld != nil && fld.Name() == "subClauses" {
+				sites = append(sites, loopSite{fn, li})
 			}
+		}
+		method := fn
+		eachInstr(method, func(in ssa.Instruction) {
+			call, ok := in.(*ssa.Call)
+			if !ok {
+				return
+			}
+			callee := call.Call.StaticCallee()
+			if callee == nil || callee.Pkg != method.Pkg || callee.Blocks == nil {
+				return
+			}
+			for i, a := range call.Call.Args {
+				if fld, _ := fieldOf(a); fld == nil || fld.Name() != "subClauses" || i >= len(callee.Params) {
+					continue
+				}
+				for _, li := range loopsOf(callee) {
+					if li.base != nil && rootValue(li.base) == ssa.Value(callee.Params[i]) {
+						sites = append(sites, loopSite{callee, li})
+					}
+				}
+			}
+		})
+		for _, site := range sites {
+			fn, li := site.fn, site.li
 			found = true
-			key := fname(fn) + "|loop over sub-clauses"
+			key := fname(method) + "|loop over sub-clauses"
 			bad := ""
 			for _, b := range fn.Blocks {
 				if !inLoop(li, b) {
@@ -77,7 +107,7 @@ func runR52(c *Ctx) {
 			}
 		}
 		if !found {
-			c.undecided(fname(fn)+"|loop over sub-clauses", p.pos(fn.Pos()), "no range over subClauses found")
+			c.undecided(fname(method)+"|loop over sub-clauses", p.pos(method.Pos()), "no range over subClauses found")
 		}
 	}
 	// QFrame.filter: the leaf filters of one OR group share a boolean index; every one of them is evaluated
